@@ -7,6 +7,16 @@ R20.1  bounded fix-points: every loop that re-queues deferred work (semantic-ana
        pass_num.
 R12.3  (shared with C12) partial arithmetic operators in the constant folders are guarded: an
        unguarded one is an input-triggered crash or hang.
+R20.3  no deferral in the final iteration: SemanticAnalyzer.defer asserts `not final_iteration`
+       (an AssertionError is an INTERNAL ERROR for the user), so a deferral that is triggered by
+       *seeing a placeholder* (isinstance(.., PlaceholderNode/PlaceholderType), has_placeholder(..))
+       must also be conditional on not being in the final iteration, or go through
+       process_placeholder, which reports a cyclic definition instead. Sites confirmed by a
+       crashing input are findings; sites for which no input was found are tabled (unproven).
+R20.4  an index variable that takes different integer constants on different paths (arg_index = 0
+       / 1, next_group = 0 / += 1) and then subscripts a sequence is compared with len() of that
+       very sequence in the guard of the access; an unguarded access is an IndexError for the input
+       whose sequence is shorter (INTERNAL ERROR).
 R20.2  inventory (evidence only): explicit `raise` of non-CompileError classes and `assert`s in the
        anchored modules, so that a change adding one is visible.
 """
@@ -36,6 +46,8 @@ def const_int(ix, m, e: ast.expr):
 
 def run(chk: Check) -> None:
     ix = get_index()
+    run_final_iteration(chk, ix)
+    run_index_guards(chk, ix)
 
     r1 = chk.rule("R20.1", "every loop that re-queues deferred work has a per-iteration counter compared with a constant bound that exits the loop; type-checker deferral is limited by pass_num < last_pass", floor=7)
     n_loops = 0
@@ -222,3 +234,104 @@ def drains_only(lp: ast.While):
             if any(isinstance(x, ast.Name) and x.id == name for x in tg):
                 return None
     return name if pops else None
+
+
+DEFER_CALLS = {"defer", "mark_incomplete", "record_incomplete_ref"}
+DEFER_MODULES = ("mypy.semanal", "mypy.typeanal", "mypy.semanal_namedtuple", "mypy.semanal_typeddict", "mypy.semanal_enum", "mypy.semanal_newtype", "mypy.semanal_shared")
+
+
+def run_final_iteration(chk: Check, ix) -> None:
+    from ..cfg import branch_conditions
+    r3 = chk.rule("R20.3", "a deferral triggered by the presence of a placeholder is conditional on not being in the final iteration of semantic analysis (defer() asserts that; an assertion failure is an internal error)", floor=8)
+    sa = ix.cls("mypy.semanal.SemanticAnalyzer")
+    d = sa.methods.get("defer")
+    if d is None or not any(isinstance(a, ast.Assert) and "final_iteration" in norm(a.test) for a in ast.walk(d.node)):
+        r3.info("SemanticAnalyzer.defer no longer asserts `not final_iteration`", sa.module.relpath, "the rule has no crash point to protect")
+        return
+    n = 0
+    for modname in DEFER_MODULES:
+        if modname not in ix.modules:
+            continue
+        m = ix.module(modname)
+        par = m.parents()
+        for q, f in sorted(ix.functions.items()):
+            if f.module is not m or f.parent is not None or f.name in DEFER_CALLS:
+                continue
+            seen_keys = {}
+            for c in ast.walk(f.node):
+                if not (isinstance(c, ast.Call) and isinstance(c.func, ast.Attribute) and c.func.attr in DEFER_CALLS and norm(c.func.value) in ("self", "self.api")):
+                    continue
+                st = c
+                while not isinstance(st, ast.stmt):
+                    st = par[st]
+                pos, neg = branch_conditions(par, f.node, st)
+                conds = [norm(t) for t in pos] + ["not (" + norm(t) + ")" for t in neg]
+                ph = [t for t in [norm(x) for x in pos] if "PlaceholderNode" in t or "PlaceholderType" in t or "has_placeholder(" in t]
+                if not ph:
+                    continue
+                n += 1
+                base = f"{q}: {norm(c.func)}() when {ph[0][:70]}"
+                k = seen_keys.get(base, 0) + 1
+                seen_keys[base] = k
+                key = base if k == 1 else f"{base} #{k}"
+                if any("final_iteration" in t for t in conds):
+                    r3.ok(key, f.loc(c), "also conditional on final_iteration")
+                else:
+                    r3.violation(key, f.loc(c), "seeing a placeholder leads to a deferral with no regard to final_iteration: on a cyclic definition the placeholder is still there in the final iteration, defer() hits `assert not self.final_iteration` and the user gets INTERNAL ERROR instead of a diagnostic")
+            # a "please defer" flag handed to the caller: `return .., True, ..` under a placeholder test
+            for rt in ast.walk(f.node):
+                if not (isinstance(rt, ast.Return) and isinstance(rt.value, ast.Tuple) and any(isinstance(e, ast.Constant) and e.value is True for e in rt.value.elts)):
+                    continue
+                conj, _h = guard_chain(f, rt, early_exits=True)
+                texts = [norm(t) for t in conj]
+                ph = [t for t in texts if ("PlaceholderNode" in t or "PlaceholderType" in t or "has_placeholder(" in t) and not t.startswith("not ")]
+                if not ph or "defer" not in (ast.get_docstring(f.node) or "").lower():
+                    continue
+                n += 1
+                key = f"{q}: returns `defer` when {ph[0][:70]}"
+                if any("final_iteration" in t for t in texts):
+                    r3.ok(key, f.loc(rt), "also conditional on final_iteration")
+                else:
+                    r3.violation(key, f.loc(rt), "the caller is told to defer because a placeholder was seen, with no regard to final_iteration: on a cyclic definition defer() hits its assertion (INTERNAL ERROR)")
+    if n < 8:
+        raise AnalysisError(f"only {n} placeholder-triggered deferral sites found")
+
+
+def run_index_guards(chk: Check, ix) -> None:
+    r4 = chk.rule("R20.4", "a subscript whose index is a local that is assigned different integer constants on different paths is guarded by a comparison of that local with len() of the subscripted sequence", floor=2)
+    n = 0
+    for q, f in sorted(ix.functions.items()):
+        mn = f.module.name
+        if f.parent is not None or not mn.startswith("mypy.") or ".test" in mn or mn.startswith(("mypy.stub", "mypy.dmypy")):
+            continue
+        asg: dict[str, list] = {}
+        for a in ast.walk(f.node):
+            if isinstance(a, ast.Assign) and len(a.targets) == 1 and isinstance(a.targets[0], ast.Name):
+                asg.setdefault(a.targets[0].id, []).append(a.value)
+        idxvars = {v for v, vals in asg.items() if len(vals) >= 2 and all(isinstance(x, ast.Constant) and isinstance(x.value, int) and not isinstance(x.value, bool) for x in vals)}
+        if not idxvars:
+            continue
+        par = f.module.parents()
+        for sub in ast.walk(f.node):
+            if not (isinstance(sub, ast.Subscript) and isinstance(sub.slice, ast.Name) and sub.slice.id in idxvars and isinstance(sub.ctx, ast.Load)):
+                continue
+            n += 1
+            conj, _h = guard_chain(f, sub, early_exits=True)
+            texts = [norm(c) for c in conj]
+            p_ = par.get(sub)
+            while p_ is not None and not isinstance(p_, ast.stmt):
+                if isinstance(p_, ast.BoolOp) and isinstance(p_.op, ast.And):
+                    # earlier conjuncts of the same `and` guard the later ones
+                    for v in p_.values:
+                        if any(x is sub for x in ast.walk(v)):
+                            break
+                        texts.append(norm(v))
+                p_ = par.get(p_)
+            want = f"len({norm(sub.value)})"
+            key = f"{q}: {norm(sub)} guarded by a comparison of {sub.slice.id} with {want}"
+            if any(want in t and sub.slice.id in t for t in texts):
+                r4.ok(key, f.loc(sub))
+            else:
+                r4.violation(key, f.loc(sub), f"`{sub.slice.id}` takes several constant values but the access is not range-checked against {want}: an input whose sequence is shorter raises IndexError, i.e. INTERNAL ERROR (or a dead daemon)")
+    if n < 2:
+        raise AnalysisError(f"only {n} constant-index-variable subscripts found")
